@@ -74,7 +74,7 @@ def run(R):
                 p = where[i][0]
                 guess = (h["os"] + (1 if h["oc"] == 0 else 0)) - 1 + offerr
                 offerr += p - guess
-                cursor = p + h["oc"]
+                cursor = min(p + h["oc"], len(tgt))     # (a hunk may reach beyond the end of the file: D99)
     ro = R.model(oreqs)
     verd = {}
     for (q, x, i), v in zip(ometa, ro):
